@@ -20,6 +20,64 @@ type reflCtx struct {
 	c     *an.Ctx
 	kinds map[string]string // name -> normalised constant
 	depth int
+	stack map[*ssa.Function]bool
+}
+
+// atCallSites re-poses an obligation about parameter p of fn at every static
+// call site of fn (the function must not be exported, have its address taken
+// or be called dynamically): check(caller, site, argument) must hold at all of
+// them. This is how an obligation travels through an extracted helper.
+func (r *reflCtx) atCallSites(fn *ssa.Function, p *ssa.Parameter, check func(caller *ssa.Function, site ssa.Instruction, arg ssa.Value) (bool, string)) (bool, string) {
+	if fn.Parent() != nil {
+		return false, ""
+	}
+	if o := fn.Object(); o != nil && o.Exported() {
+		return false, ""
+	}
+	if r.stack == nil {
+		r.stack = map[*ssa.Function]bool{}
+	}
+	if r.stack[fn] || len(r.stack) > 3 {
+		return false, ""
+	}
+	r.stack[fn] = true
+	defer delete(r.stack, fn)
+	idx := -1
+	for i, q := range fn.Params {
+		if q == p {
+			idx = i
+		}
+	}
+	if idx < 0 {
+		return false, ""
+	}
+	n := 0
+	ok := true
+	how := ""
+	for _, g := range r.c.P.Funcs {
+		an.Instrs(g, func(in ssa.Instruction) {
+			for _, op := range in.Operands(nil) {
+				if *op != ssa.Value(fn) {
+					continue
+				}
+				k, isCall := in.(ssa.CallInstruction)
+				if !isCall || k.Common().Value != ssa.Value(fn) {
+					ok = false
+					continue
+				}
+				n++
+				good, h := check(g, in, k.Common().Args[idx])
+				if !good {
+					ok = false
+				}
+				how = h
+			}
+		})
+	}
+	if n == 0 || !ok {
+		return false, ""
+	}
+	return true, fmt.Sprintf("established at all %d call site(s) of %s (%s)", n, an.ShortName(fn), how)
 }
 
 func newReflCtx(c *an.Ctx) *reflCtx {
@@ -141,6 +199,13 @@ func (r *reflCtx) dynHasKind(fn *ssa.Function, at ssa.Instruction, a ssa.Value, 
 			}
 		}
 	}
+	if p, ok := a.(*ssa.Parameter); ok && p.Parent() == fn {
+		if good, how := r.atCallSites(fn, p, func(g *ssa.Function, site ssa.Instruction, arg ssa.Value) (bool, string) {
+			return r.dynHasKind(g, site, arg, kinds)
+		}); good {
+			return true, how
+		}
+	}
 	// node fields set under contract
 	if n == "p:n.ctor" || n == "p:n.dcor" {
 		if contains(kinds, "Func") {
@@ -180,6 +245,13 @@ func (r *reflCtx) typeHasKind(fn *ssa.Function, at ssa.Instruction, v ssa.Value,
 		for _, ct := range contracts[an.ShortName(fn)] {
 			if ct.param == an.CanonParam(x) && ct.mode == "type" && subset(ct.kinds, kinds) {
 				return true, "contract of " + an.ShortName(fn) + ": " + x.Name() + " is a " + strings.Join(ct.kinds, "|")
+			}
+		}
+		if x.Parent() == fn {
+			if good, how := r.atCallSites(fn, x, func(g *ssa.Function, site ssa.Instruction, arg ssa.Value) (bool, string) {
+				return r.typeHasKind(g, site, arg, kinds)
+			}); good {
+				return true, how
 			}
 		}
 	case *ssa.Call:
@@ -296,6 +368,13 @@ func (r *reflCtx) valueHasKind(fn *ssa.Function, at ssa.Instruction, v ssa.Value
 		for _, ct := range contracts[an.ShortName(fn)] {
 			if ct.param == an.CanonParam(x) && ct.mode == "value" && subset(ct.kinds, kinds) {
 				return true, "contract of " + an.ShortName(fn) + ": " + x.Name() + " is a " + strings.Join(ct.kinds, "|") + " value"
+			}
+		}
+		if x.Parent() == fn {
+			if good, how := r.atCallSites(fn, x, func(g *ssa.Function, site ssa.Instruction, arg ssa.Value) (bool, string) {
+				return r.valueHasKind(g, site, arg, kinds)
+			}); good {
+				return true, how
 			}
 		}
 	case *ssa.Call:
